@@ -42,7 +42,9 @@ PROPS = {
                      "between rounds while all threads are quiescent; fresh threads per round or persistent threads that live across "
                      "reset(); optional start barrier, optionally two singleton types, optionally a constructor that throws on the first "
                      "attempt) or managed thread (0..2 observer threads, 1..8 queries each, explicit join or join by destructor, function "
-                     "with/without arguments, held by a latch or returning at once), plus a schedule: random preemption with "
+                     "with/without arguments, held by a latch or returning at once; the function writes plain result words before it "
+                     "returns and whoever saw it started and then gets isActive()==false reads them at once), in half of the singleton "
+                     "runs every thread uses its own call form of instance() (int&, int&&, const int&, second constructor, short), plus a schedule: random preemption with "
                      "probability 1/p at every non-stack load/store and synchronisation call (optionally biased to lock/unlock points), "
                      "PCT with 1..3 priority change points, round-robin with random quantum, child-first/parent-first bias at "
                      "pthread_create. Non-trivial: at least one preemption or one wait for a mutex happened. Distinct: distinct "
@@ -68,6 +70,9 @@ PROPS = {
     },
     "C15": {
         "target": "c15",
+        # second harness of the same property: several threads through one
+        # files::Handler< P, std::mutex> under the thread scheduler
+        "extra_targets": [{"target": "c15mt", "share": 0.3}],
         "tiers": {
             "quick": {"count": 4000000, "budget_s": 40, "workers": 16, "recheck": 100},
             "thorough": {"count": 200000000, "budget_s": 1200, "workers": 16, "recheck": 200},
@@ -83,16 +88,24 @@ PROPS = {
                      "crash-only. After every operation the simulated disk is compared with the reference model (step relation, limits, "
                      "content/order/holes); after the last operation a fresh process must re-open and roll twice. Non-trivial: at least "
                      "one roll-over or (re)start/crash recovery happened. Distinct: distinct hashes over every simulated file-system "
-                     "call and its result plus the operation log."),
-            "sim_time_unit": "simulated seconds (clock operations of the plans; the clock is read by the file-name builder only)",
+                     "call and its result plus the operation log. Second harness (c15mt, 30% of the budget): 2..5 threads write 1..5 "
+                     "unique messages each through one files::Handler<P, std::mutex> per round, 1..3 rounds with a clean restart between "
+                     "them, under the seeded thread scheduler (preemption at every non-stack load/store of the library) with the same "
+                     "simulated file system; oracle: every line is one issued message, none twice, file order is a linearisation of the "
+                     "calls, loss only of provably-not-newer messages once max_gen files exist, limits, no premature generation, no data "
+                     "race (ThreadSanitizer), no deadlock. Non-trivial there: at least one preemption or wait for the handler's lock; "
+                     "distinct: context-switch sequence + file-system call sequence."),
+            "sim_time_unit": "simulated seconds (clock operations of the plans; the clock is read by the file-name builder only); scheduler steps of the threaded part are in misc.mt_schedule_points",
             "state_measure": "distinct (policy, limit, generations) configurations",
             "distinct_measure": "distinct file-system call sequences (hash over every intercepted call, its arguments and result)",
             "components": {
                 "real": ["celma::log::files::Counted, MaxSize, PolicyBase (real std::ofstream / std::ifstream of libstdc++)",
                          "celma::log::filename::Creator, Builder, Definition", "celma::common::FileOperations, FileFuncsOs",
-                         "celma::log::detail::LogMsg"],
+                         "celma::log::detail::LogMsg", "celma::log::files::Handler<P, L> (L = NoLock sequential, std::mutex threaded)",
+                         "threaded part: libstdc++ std::thread / std::mutex, ThreadSanitizer (clang 14) inside every run"],
                 "stub": [STUB_FS, "wall clock (time/gettimeofday/clock_gettime(CLOCK_REALTIME)), getenv overlay, getpid",
-                         "log message formatting: the text is handed to PolicyBase::writeMessage() directly"],
+                         "log message formatting: the text is handed to PolicyBase::writeMessage() directly, or through a formatter that writes the text only",
+                         "threaded part: OS thread scheduler replaced by the baton scheduler (sim/sched.cpp) over real pthreads"],
             },
             "assumptions": [
                 "process crash model, not power loss: a byte is durable once write()/writev() returned it, rename/mkdir/unlink when they return; the library never calls fsync",
